@@ -12,8 +12,6 @@
   (site/reason code); listed open ones print KNOWN-FINDING, anything else is a VIOLATION.
 """
 import importlib.util
-import subprocess
-import sys
 from pathlib import Path
 
 from vlib import core
@@ -32,8 +30,7 @@ spec = _load("spec")
 translate = _load("translate")
 
 LT_IDX = {"statement": 0, "openmp_directive": 1, "openacc_directive": 2, "comment": 3, "unknown": 4}
-HEADER = ("From PV Require Import C18.Types C18.Gen C18.Model C18.Join C18.Check.\n"
-          "Require Import Coq.Strings.String. Local Open Scope string_scope.")
+HEADER = "From PV Require Import C18.Types C18.Gen C18.Model C18.Join C18.Check."
 
 
 # ------------------------------------------------------------------------------------ implementation
@@ -58,11 +55,23 @@ def impl_type(line):
 def coq_s(s):
     if all(32 <= ord(c) < 127 for c in s):
         return '(s "%s")' % s.replace('"', '""')
-    return "(b [%s])" % "; ".join(str(ord(c)) for c in s)
+    return coq_b(s)
 
 
 def coq_lines(ls):
     return "[" + "; ".join(coq_s(x) for x in ls) + "]"
+
+
+def line_hash(x):
+    """mirror of C18.Check.hash"""
+    h = 7
+    for c in x:
+        h = (h * 131 + ord(c) + 1) & 281474976710655
+    return h
+
+
+def coq_sums(ls):
+    return "[" + "; ".join("(%d, %d)" % (len(x), line_hash(x)) for x in ls) + "]%N"
 
 
 # ---------------------------------------------------------------------------------------- generators
@@ -392,7 +401,7 @@ def run(ctx):
     # --- 4. generated cases
     rng = ctx.rng("gen")
     g = Gen(rng)
-    ncases = ctx.pick(2600, 36000)
+    ncases = ctx.pick(900, 20000)
     cases = []
     seen = set()
     corpus = HERE / "corpus" / "lines.txt"
@@ -409,7 +418,7 @@ def run(ctx):
             continue
         seen.add((L, ln))
         cases.append((tag, L, ln))
-    coq_cases, failures, fp_cmp, fp_bad = [], [], 0, []
+    coq_cases, cases_of, failures, fp_cmp, fp_bad = [], [], [], 0, []
     nontriv = 0
     for tag, L, ln in cases:
         st, out = impl_process(L, ln)
@@ -435,8 +444,9 @@ def run(ctx):
         pp = spec.prop_on(ln, out_lines) if st == "ok" else 3
         if st == "exc":
             continue
-        coq_cases.append("((%d, %s, %s), (%d, %s, %d))" % (
-            L, coq_s(ln), ("Some " + coq_lines(out_lines)) if st == "ok" else "None", pp,
+        cases_of.append((tag, L, ln))
+        coq_cases.append("mk %d%%N %s %s %d%%N %s %d%%N" % (
+            L, coq_s(ln), ("(Some %s)" % coq_sums(out_lines)) if st == "ok" else "None", pp,
             "true" if sf else "false", LT_IDX[lt]))
         # validation of the join spec against fparser (plain statement lines only)
         if st == "ok" and wrapped and tag in ("statement", "charlit", "trailing_comment") and fp_cmp < ctx.pick(400, 4000) \
@@ -468,17 +478,22 @@ def run(ctx):
             failures.append(("text", L, text, st, [], ("process/unexpected-exception", out)))
             continue
         ctx.count(("text", L, text), any(len(x) > L for x in lines))
-        tcases.append("(%d, %s, %s)" % (L, coq_b(text), ("Some " + coq_b(out)) if st == "ok" else "None"))
+        tcases.append("(%d%%N, %s, %s)" % (L, coq_b(text), ("Some " + coq_sums(out.split("\n"))) if st == "ok" else "None"))
     # --- 5. model vs implementation, Coq spec vs Python mirror, property re-evaluated by the Coq spec
-    bad_model = bad_spec = bad_prop = bad_text = []
+    bad_model, bad_spec, bad_prop, bad_text = [], [], [], []
     if okc:
-        bad_model = ctx.coq_eval_failing(HEADER, "line_case", "model_agrees", coq_cases, shard=ctx.pick(220, 600))
-        bad_spec = ctx.coq_eval_failing(HEADER, "line_case", "spec_agrees", coq_cases, shard=ctx.pick(220, 600))
+        bad_any = ctx.coq_eval_failing(HEADER, "line_case", "line_check", coq_cases, shard=ctx.pick(250, 800))
+        if bad_any:       # attribute: model != implementation / Coq spec != Python mirror / property on model output
+            sub = [coq_cases[i] for i in bad_any[:400]]
+            bad_model = [bad_any[i] for i in ctx.coq_eval_failing(HEADER, "line_case", "model_agrees", sub)]
+            bad_spec = [bad_any[i] for i in ctx.coq_eval_failing(HEADER, "line_case", "spec_agrees", sub)]
+            bad_prop = [bad_any[i] for i in ctx.coq_eval_failing(HEADER, "line_case", "property_ok", sub)]
         bad_text = ctx.coq_eval_failing(HEADER, "text_case", "text_check", tcases, shard=300)
-    ctx.cov["disagreements_checked"] = len(bad_model) + len(bad_spec) + len(bad_text)
-    ctx.log("cases=%d wrapped=%d | model!=impl: %d | coq-spec!=py-mirror: %d | text model!=impl: %d | property failures "
-            "on impl: %d | fparser validation %d compared / %d different"
-            % (len(cases), nontriv, len(bad_model), len(bad_spec), len(bad_text), len(failures), fp_cmp, len(fp_bad)))
+    ctx.cov["disagreements_checked"] = len(bad_model) + len(bad_spec) + len(bad_prop) + len(bad_text)
+    ctx.log("cases=%d wrapped=%d | model!=impl: %d | coq-spec!=py-mirror: %d | theorem content false on model output: %d "
+            "| text model!=impl: %d | property failures on impl: %d | fparser validation %d compared / %d different"
+            % (len(cases), nontriv, len(bad_model), len(bad_spec), len(bad_prop), len(bad_text), len(failures), fp_cmp,
+               len(fp_bad)))
     # --- 6. verdict
     reported = set()
     concrete = False
@@ -505,17 +520,22 @@ def run(ctx):
         broken.append("correspondence C18.Model.process_line = FortLineLength.process (%d cases)" % len(bad_model))
     if bad_text:
         broken.append("correspondence C18.Model.process_text = FortLineLength.process on texts (%d cases)" % len(bad_text))
+    if bad_prop:
+        broken.append("limit/safe-join/fixed-point re-evaluated on the model output is false (%d cases): the theorems of "
+                      "Properties/C18.v cannot hold of these tables" % len(bad_prop))
     if bad_spec:
         broken.append("Coq spec Join.v / Python mirror spec.py disagree (%d cases)" % len(bad_spec))
     if fp_bad:
         broken.append("join spec disagrees with fparser's free-form reader (%d of %d)" % (len(fp_bad), fp_cmp))
     if broken and not concrete:
         first = None
-        if bad_model or bad_spec:
-            i = (bad_model or bad_spec)[0]
-            first = {"case": coq_cases[i][:1500],
-                     "model": ctx.coq_eval_show(HEADER, ["let c := %s in (process_line (fst (fst (fst c))) "
-                                                         "(snd (fst (fst c))), safe (snd (fst (fst c))))" % coq_cases[i]])}
+        if bad_model or bad_spec or bad_prop:
+            i = (bad_model or bad_spec or bad_prop)[0]
+            tag, L, ln = cases_of[i]
+            st, out = impl_process(L, ln)
+            first = {"kind": tag, "limit": L, "line": ln, "impl": out.split("\n") if st == "ok" else st,
+                     "model": ctx.coq_eval_show(HEADER, ["let c := (%s) in (process_line (N.to_nat (c_limit c)) (c_line c), "
+                                                         "safe (c_line c))" % coq_cases[i]])}
         elif bad_text:
             first = {"case": tcases[bad_text[0]][:1500]}
         elif fp_bad:
@@ -525,4 +545,21 @@ def run(ctx):
 
 
 def coq_b(s):
-    return "(b [%s])" % "; ".join(str(ord(c)) for c in s)
+    """arbitrary Latin-1 text: printable ASCII runs as byte-string literals, other code points as N"""
+    parts, run = [], []
+    for c in s:
+        if 32 <= ord(c) < 127:
+            run.append(c)
+        else:
+            if run:
+                parts.append('s "%s"' % "".join(run).replace('"', '""'))
+                run = []
+            if parts and parts[-1].startswith("b ["):
+                parts[-1] = parts[-1][:-3] + "; %d]%%N" % ord(c)
+            else:
+                parts.append("b [%d]%%N" % ord(c))
+    if run:
+        parts.append('s "%s"' % "".join(run).replace('"', '""'))
+    if not parts:
+        return "(@nil Ascii.ascii)"
+    return "(" + " ++ ".join(parts) + ")"
